@@ -41,6 +41,26 @@ with stmt : Type :=
 | If (c t e : stmts)
 | While (until : bool) (c b : stmts).
 
+Definition BSL : N := 92.
+Definition DQ : N := 34.
+Definition DOLLAR : N := 36.
+Definition BQ : N := 96.
+Definition NL : N := 10.
+
+(* escaped newlines inside double quotes: a backslash-newline pair is a line continuation
+   (an escaped backslash does not pair with a following newline) *)
+Fixpoint strip_escnl_dq (s : str) : str :=
+  match s with
+  | [] => []
+  | b :: t =>
+      if b =? BSL then
+        match t with
+        | c :: t' => if c =? NL then strip_escnl_dq t' else b :: c :: strip_escnl_dq t'
+        | [] => [b]
+        end
+      else b :: strip_escnl_dq t
+  end.
+
 (* ---- norm: what the printer is allowed to change ---- *)
 Fixpoint norm_word (w : word) : word :=
   match w with
@@ -58,7 +78,10 @@ with norm_part (p : part) : part :=
 with norm_dq (d : dq) : dq :=
   match d with
   | DNil => DNil
-  | DLit s r => DLit s (norm_dq r)
+  | DLit s r => match strip_escnl_dq s with
+                | [] => norm_dq r                 (* an empty literal part is no part *)
+                | s' => DLit s' (norm_dq r)
+                end
   | DParam _ n r => DParam false n (norm_dq r)
   | DSub _ b r => DSub false (norm_stmts b) (norm_dq r)
   end
@@ -84,11 +107,6 @@ with norm_stmt (s : stmt) : stmt :=
   end.
 
 (* ---- semantics ---- *)
-Definition BSL : N := 92.
-Definition DQ : N := 34.
-Definition DOLLAR : N := 36.
-Definition BQ : N := 96.
-Definition NL : N := 10.
 
 (* quote removal of unquoted text: a backslash quotes the next byte; backslash-newline vanishes *)
 Fixpoint unquote_lit (s : str) : str :=
